@@ -33,6 +33,7 @@ struct Thr {
   int wait_mutex = -1;
   int64_t deadline = -1;
   bool timed_out = false;
+  bool spin_sleep = false;  // sleeping as part of a spin-wait ladder (went to sleep while spinning without news)
   bool yielded = false;
   uint64_t yield_epoch = 0;
   vf::H128 obs;
@@ -107,6 +108,17 @@ int earliest_timer() {
   return best;
 }
 
+// earliest pending timer of a thread that is NOT merely sleeping inside a spin-wait ladder
+int earliest_real_timer() {
+  int best = -1;
+  for (int i = 0; i < g_nthr; ++i) {
+    Thr &t = g_thr[i];
+    if ((t.st == B_CV || t.st == SLEEPING || t.st == B_FUTURE) && t.deadline >= 0 && !(t.st == SLEEPING && t.spin_sleep))
+      if (best < 0 || t.deadline < g_thr[best].deadline) best = i;
+  }
+  return best;
+}
+
 void fire_earliest_timer() {
   int i = earliest_timer();
   if (i < 0) return;
@@ -175,12 +187,27 @@ void schedule(bool can_run) {
       if (self_yielded) { cand[n] = self; kinds[n++] = vf::FREE; }
       for (int i = 0; i < g_nthr; ++i)
         if (i != self && g_thr[i].st == RUNNABLE) { cand[n] = i; kinds[n++] = vf::FREE; }
-      if (n > 0 && ++g_forced_spin > 3000)
-        die("livelock", "only spinning threads are runnable and nothing changes (spin horizon reached)");
+      if (n > 0) ++g_forced_spin;
     } else {
       g_forced_spin = 0;
     }
     int timer = earliest_timer();
+    if (n == 0 && timer >= 0 && g_thr[timer].st == SLEEPING && g_thr[timer].spin_sleep) ++g_forced_spin;  // a ladder's own sleep
+    // Spin-waiting with sleeps (SpinLockMutex::lock(): 100 fast tries, yield, try, sleep 1 ms, repeat) while the
+    // holder is blocked on a long timer: nothing can change before one of the OTHER threads' timers fires. The
+    // waiters are first driven through a few rounds of their ladder (so that its later stages are exercised);
+    // after that virtual time jumps to that timer instead of unrolling hundreds of identical rounds.
+    if (g_forced_spin > 700) {
+      int real = earliest_real_timer();
+      if (real >= 0) {
+        if (g_thr[real].deadline > vf::clock_virtual_ns()) vf::clock_set_virtual_ns(g_thr[real].deadline);
+        wake_due_timers();
+        g_forced_spin = 0;
+        continue;
+      }
+      if (g_forced_spin > 3000)
+        die("livelock", "only spinning threads are runnable (or sleeping inside their spin loop) and no other thread will ever wake up");
+    }
     if (n == 0) {
       if (timer >= 0) { fire_earliest_timer(); continue; }   // time passes only when nobody can run
       die("deadlock", "no thread can run and no timer is pending");
@@ -259,7 +286,7 @@ void *trampoline(void *arg) {
 void begin(vf::Ctx &ctx) {
   g_ctx = &ctx;
   for (int i = 0; i < MAXTHR; ++i) {
-    g_thr[i].st = UNUSED; g_thr[i].wait_obj = g_thr[i].wait_mutex = -1; g_thr[i].deadline = -1; g_thr[i].timed_out = false;
+    g_thr[i].st = UNUSED; g_thr[i].wait_obj = g_thr[i].wait_mutex = -1; g_thr[i].deadline = -1; g_thr[i].timed_out = false; g_thr[i].spin_sleep = false;
     g_thr[i].yielded = false; g_thr[i].obs = vf::H128(); g_thr[i].ncreated = 0; g_thr[i].rep_epoch = ~0ull; g_thr[i].nhist = 0;
   }
   g_nthr = 1;
@@ -546,7 +573,9 @@ void sleep_until(int64_t deadline_ns) {
   int64_t dl = deadline_ns - g_clock0;
   if (dl <= vf::clock_virtual_ns()) { schedule(true); return; }
   s.st = SLEEPING; s.deadline = dl; s.timed_out = false;
+  s.spin_sleep = s.yielded && s.yield_epoch == g_epoch;
   schedule(false);
+  s.spin_sleep = false;
   s.deadline = -1; s.timed_out = false;
   s.obs.add(0x51ee);
 }
